@@ -187,8 +187,11 @@ class FD:
             self._mods.append(b.module)
             try:
                 v = self.eval(b.node, {})
-            except Inconclusive:
-                return _MISSING
+            except (Inconclusive, Raised):
+                # a module-level object the interpreter cannot build (MAIN_REPORT = Report()): an opaque value,
+                # distinct from everything else
+                v = Obj('%s.%s' % (b.module.name, name))
+                v.attrs['__open__'] = True
             finally:
                 self._mods.pop()
             self._modcache[key] = v
@@ -597,8 +600,15 @@ class FD:
             env[p] = a
         if fn.args.vararg is not None:
             env[fn.args.vararg.arg] = tuple(args[len(params):])
+        extra_kw = {}
+        known = set(params) | {a.arg for a in fn.args.kwonlyargs} | {a.arg for a in fn.args.posonlyargs}
         for k, v in (kwargs or {}).items():
-            env[k] = v
+            if k in known or fn.args.kwarg is None:
+                env[k] = v
+            else:
+                extra_kw[k] = v
+        if fn.args.kwarg is not None:
+            env[fn.args.kwarg.arg] = extra_kw
         self._mods.append(getattr(fn, '_module', None) or (self._mods[-1] if self._mods else None))
         try:
             for p, d in zip(params[len(params) - len(defaults):], defaults):
@@ -711,6 +721,11 @@ class FD:
             if any(a is UNKNOWN for a in args):
                 return UNKNOWN
             return getattr(recv, attr)(*args)
+        if isinstance(recv, str) and attr == 'format':
+            try:
+                return recv.format(*args, **kwargs)
+            except (KeyError, IndexError, ValueError) as ex:
+                raise Raised(type(ex).__name__, str(ex))
         if isinstance(recv, dict) and attr == 'get':
             if args[0] is UNKNOWN:
                 return UNKNOWN
